@@ -410,6 +410,6 @@ fn parts(tier: Tier) -> Vec<PartDef> {
     };
     match tier {
         Tier::Quick => vec![mk("histories-len3-dev1", 3, 1), mk("histories-len2-dev2", 2, 2)],
-        Tier::Thorough => vec![mk("histories-len3-dev3", 3, 3), mk("histories-len4-dev2", 4, 2), mk("histories-len5-dev1", 5, 1)],
+        Tier::Thorough => vec![mk("histories-len3-dev2", 3, 2), mk("histories-len4-dev1", 4, 1), mk("histories-len5-dev0", 5, 0)],
     }
 }
